@@ -51,8 +51,9 @@ package graphql
 //@   assigns nothing
 //@   ensures src == nil ==> result
 
+// (C09: the guard that keeps NaN and other null-ish serialisation results out of the data, which must stay serialisable to JSON)
 //@ func completeLeafValue
-//@   props C04
+//@   props C04 C09
 //@   requires returnType != nil
 //@   ensures result == nil || !isNullish_0(result)
 
@@ -101,7 +102,7 @@ package graphql
 //@   assigns class:executionContext.Errors, class:executionContext.Context, class:FormattedError, class:M|*graphql.Object|*graphql.selectionPlan, class:graphql.selectionPlan, class:graphql.fieldPlan, class:M|string|int, class:M|string|bool, class:E|*graphql.fieldPlan, class:E|*ast.Field, class:M|string|interface, class:E|interface, class:E|string, class:graphql.fragmentGate, class:graphql.fragmentTrace, class:E|graphql.collectStep, class:F|[]graphql.collectStep, class:M|string|*graphql.fragmentTrace, class:E|graphql.fragmentSpreadEdge, class:M|string|*graphql.fragmentGate, class:E|func, class:graphql.Plan.expanding, class:M|*ast.Field|bool, class:M|*graphql.fieldPlan|bool, class:M|*graphql.fragmentTrace|bool
 
 //@ func resolvePlannedField
-//@   props C04 C20 C06 C17
+//@   props C04 C20 C06 C17 C18
 //@   assigns class:executionContext.Errors, class:executionContext.Context, class:FormattedError, class:M|*graphql.Object|*graphql.selectionPlan, class:graphql.selectionPlan, class:graphql.fieldPlan, class:M|string|int, class:M|string|bool, class:E|*graphql.fieldPlan, class:E|*ast.Field, class:M|string|interface, class:E|interface, class:E|string, class:graphql.fragmentGate, class:graphql.fragmentTrace, class:E|graphql.collectStep, class:F|[]graphql.collectStep, class:M|string|*graphql.fragmentTrace, class:E|graphql.fragmentSpreadEdge, class:M|string|*graphql.fragmentGate, class:E|func, class:graphql.Plan.expanding, class:M|*ast.Field|bool, class:M|*graphql.fieldPlan|bool, class:M|*graphql.fragmentTrace|bool
 //@   nosafety
 //@   requires eCtx != nil && fp != nil && fp.fieldDef != nil
@@ -109,7 +110,7 @@ package graphql
 //@   at[C20] call resolveFn: assert arg0.Source == source
 //@   at[C20] call resolveFn: assert arg0.Context == eCtx.Context
 //@   at[C20] call resolveFn: assert arg0.Info.FieldName == fp.fieldName
-//@   at[C20] call resolveFn: assert arg0.Info.Path == path
+//@   at[C20,C18] call resolveFn: assert arg0.Info.Path == path
 //@   at[C20] call resolveFn: assert arg0.Info.ParentType == parentType
 //@   at[C20] call resolveFn: assert arg0.Info.ReturnType == fp.returnType
 //@   at[C20] call resolveFn: assert arg0.Info.RootValue == eCtx.Root && arg0.Info.Operation == eCtx.Operation && arg0.Info.VariableValues == eCtx.VariableValues && arg0.Info.FieldASTs == fp.fieldASTs
@@ -128,13 +129,16 @@ package graphql
 
 
 //@ func executePlannedSelection
+//@   props C20 C13 C01 C18
 //@   assigns class:executionContext.Errors, class:executionContext.Context, class:FormattedError, class:M|*graphql.Object|*graphql.selectionPlan, class:graphql.selectionPlan, class:graphql.fieldPlan, class:M|string|int, class:M|string|bool, class:E|*graphql.fieldPlan, class:E|*ast.Field, class:M|string|interface, class:E|interface, class:E|string, class:graphql.fragmentGate, class:graphql.fragmentTrace, class:E|graphql.collectStep, class:F|[]graphql.collectStep, class:M|string|*graphql.fragmentTrace, class:E|graphql.fragmentSpreadEdge, class:M|string|*graphql.fragmentGate, class:E|func, class:graphql.Plan.expanding, class:M|*ast.Field|bool, class:M|*graphql.fieldPlan|bool, class:M|*graphql.fragmentTrace|bool
-//@   props C20 C13 C01
 //@   nosafety
 //@   requires eCtx != nil
 //@   at[C20] call resolvePlannedField: assert arg0 == eCtx && arg1 == parentType && arg3 == fp
 //@   at[C20] call resolvePlannedField: assert source != nil ==> arg2 == source
-//@   at[C20] call resolvePlannedField: assert arg4 != nil && arg4.Prev == path && typeis(arg4.Key, "string") && strval(arg4.Key) == fp.responseKey
+//@   at[C20,C18] call resolvePlannedField: assert arg4 != nil && arg4.Prev == path && typeis(arg4.Key, "string") && strval(arg4.Key) == fp.responseKey
+// every field gets its OWN path node (deferred values keep the node they were given; a node shared by the
+// siblings and re-keyed would make their errors carry the last sibling's key)
+//@   at[C20,C18] call resolvePlannedField: assert calls("WithKey") == atloop(1, calls("WithKey")) + 1 && arg4 == lastresult("WithKey")
 //@   at[C01] call resolvePlannedField: assert fp.fieldDef != nil
 
 // C13: in a root-level mutation selection every resolved field is forced depth first before the
@@ -218,23 +222,23 @@ package graphql
 
 //@ func completePlannedObjectValue
 //@   assigns class:executionContext.Errors, class:executionContext.Context, class:FormattedError, class:M|*graphql.Object|*graphql.selectionPlan, class:graphql.selectionPlan, class:graphql.fieldPlan, class:M|string|int, class:M|string|bool, class:E|*graphql.fieldPlan, class:E|*ast.Field, class:M|string|interface, class:E|interface, class:E|string, class:graphql.fragmentGate, class:graphql.fragmentTrace, class:E|graphql.collectStep, class:F|[]graphql.collectStep, class:M|string|*graphql.fragmentTrace, class:E|graphql.fragmentSpreadEdge, class:M|string|*graphql.fragmentGate, class:E|func, class:graphql.Plan.expanding, class:M|*ast.Field|bool, class:M|*graphql.fieldPlan|bool, class:M|*graphql.fragmentTrace|bool
-//@   props C20 C04
+//@   props C20 C04 C18
 //@   nosafety
 //@   requires eCtx != nil && returnType != nil
 //@   at[C20] call IsTypeOf: assert arg0.Value == result && arg0.Context == eCtx.Context
-//@   at[C20] call executePlannedSelection#1: assert arg0 == eCtx && arg1 == fp.sub && arg2 == result && arg3 == returnType && arg4 == path
+//@   at[C20,C18] call executePlannedSelection#1: assert arg0 == eCtx && arg1 == fp.sub && arg2 == result && arg3 == returnType && arg4 == path
 // a field inside a fragment cycle is planned on demand, for the type of the value at hand
-//@   at[C20] call executePlannedSelection#2: assert arg0 == eCtx && arg1 == lastresult("abstractAlternative") && arg2 == result && arg3 == returnType && arg4 == path
+//@   at[C20,C18] call executePlannedSelection#2: assert arg0 == eCtx && arg1 == lastresult("abstractAlternative") && arg2 == result && arg3 == returnType && arg4 == path
 //@   at[C20] call abstractAlternative: assert fp.sub == nil && fp.plannedOnDemand && arg1 == fp && arg2 == returnType
 
 //@ func completePlannedAbstractValue
 //@   assigns class:executionContext.Errors, class:executionContext.Context, class:FormattedError, class:M|*graphql.Object|*graphql.selectionPlan, class:graphql.selectionPlan, class:graphql.fieldPlan, class:M|string|int, class:M|string|bool, class:E|*graphql.fieldPlan, class:E|*ast.Field, class:M|string|interface, class:E|interface, class:E|string, class:graphql.fragmentGate, class:graphql.fragmentTrace, class:E|graphql.collectStep, class:F|[]graphql.collectStep, class:M|string|*graphql.fragmentTrace, class:E|graphql.fragmentSpreadEdge, class:M|string|*graphql.fragmentGate, class:E|func, class:graphql.Plan.expanding, class:M|*ast.Field|bool, class:M|*graphql.fieldPlan|bool, class:M|*graphql.fragmentTrace|bool
-//@   props C20 C04 C01
+//@   props C20 C04 C01 C18
 //@   nosafety
 //@   requires eCtx != nil && fp != nil && (eCtx.plan == nil || !held(&eCtx.plan.abstractMu))
 //@   at[C20] call ResolveType: assert arg0.Value == result && arg0.Context == eCtx.Context
 //@   at[C20] call defaultResolveTypeFn: assert arg0.Value == result && arg0.Context == eCtx.Context && arg1 == returnType
-//@   at[C20,C01] call executePlannedSelection: assert arg0 == eCtx && arg2 == result && arg3 == runtimeType && arg4 == path && arg3 != nil
+//@   at[C20,C01,C18] call executePlannedSelection: assert arg0 == eCtx && arg2 == result && arg3 == runtimeType && arg4 == path && arg3 != nil
 //@   at[C04] call executePlannedSelection: assert Schema.IsPossibleType_0(&eCtx.Schema, returnType, runtimeType)
 
 // ---- extension hooks (C17) ------------------------------------------------------------
@@ -371,25 +375,28 @@ package graphql
 //@ func overlappingFieldsCanBeMergedRule.collectConflictsBetweenFieldsAndFragment
 //@   assigns class:M|, class:E|, class:graphql.ValidationContext, class:graphql.pairSet, class:graphql.fieldsAndFragmentNames, class:graphql.fieldDefPair, class:graphql.conflict
 //@   requires rule != nil && rule.comparedFieldsAndFragmentSet != nil && rule.comparedFieldsAndFragmentSet.data != nil && rule.comparedSet != nil && rule.cacheMap != nil
-//@   props C02 C19
+//@   props C02 C19 C09
 //@   nosafety
 //@   at call Has: assert arg0 == rule.comparedFieldsAndFragmentSet && arg1 == fieldsInfo && arg2 == fragmentName && arg3 == areMutuallyExclusive
 //@   at call Add: assert arg0 == rule.comparedFieldsAndFragmentSet && arg1 == fieldsInfo && arg2 == fragmentName && arg3 == areMutuallyExclusive
 //@   at call collectConflictsBetween: assert arg2 == areMutuallyExclusive && arg3 == fieldsInfo && arg4 == fieldsInfo2
 //@   at call collectConflictsBetweenFieldsAndFragment: assert arg2 == areMutuallyExclusive && arg3 == fieldsInfo && arg4 == fragmentName2
+// the pair is recorded BEFORE the driver descends: this memo is also what ends the recursion on cyclic fragments
+//@   at[C09,C19] call collectConflictsBetweenFieldsAndFragment: assert calls("Add") == 1
 //@   loop 1 ensures calls("collectConflictsBetweenFieldsAndFragment") == atloop(1, calls("collectConflictsBetweenFieldsAndFragment")) + 1
 //@   at[C19] return: assert calls("collectConflictsBetween") <= 1 && (calls("collectConflictsBetween") == 1 ==> calls("Add") == 1)
 
 //@ func overlappingFieldsCanBeMergedRule.collectConflictsBetweenFragments
 //@   assigns class:M|, class:E|, class:graphql.ValidationContext, class:graphql.pairSet, class:graphql.fieldsAndFragmentNames, class:graphql.fieldDefPair, class:graphql.conflict
 //@   requires rule != nil && rule.comparedFieldsAndFragmentSet != nil && rule.comparedFieldsAndFragmentSet.data != nil && rule.comparedSet != nil && rule.cacheMap != nil
-//@   props C02 C19
+//@   props C02 C19 C09
 //@   nosafety
 //@   at call Has: assert arg0 == rule.comparedSet && arg1 == fragmentName1 && arg2 == fragmentName2 && arg3 == areMutuallyExclusive
 //@   at call Add: assert arg0 == rule.comparedSet && arg1 == fragmentName1 && arg2 == fragmentName2 && arg3 == areMutuallyExclusive
 //@   at call collectConflictsBetween: assert arg2 == areMutuallyExclusive && arg3 == fieldsInfo1 && arg4 == fieldsInfo2
 //@   at call collectConflictsBetweenFragments#1: assert arg2 == areMutuallyExclusive && arg3 == fragmentName1 && arg4 == innerFragmentName2
 //@   at call collectConflictsBetweenFragments#2: assert arg2 == areMutuallyExclusive && arg3 == innerFragmentName1 && arg4 == fragmentName2
+//@   at[C09,C19] call collectConflictsBetweenFragments: assert calls("Add") == 1
 //@   loop 1 ensures calls("collectConflictsBetweenFragments") == atloop(1, calls("collectConflictsBetweenFragments")) + 1
 //@   loop 2 ensures calls("collectConflictsBetweenFragments") == atloop(2, calls("collectConflictsBetweenFragments")) + 1
 //@   at[C19] return: assert calls("collectConflictsBetween") <= 1 && (calls("collectConflictsBetween") == 1 ==> calls("Add") == 1)
@@ -796,6 +803,10 @@ package graphql
 //@   ensures gq.possibleTypeMap != nil && fresh(gq.possibleTypeMap)
 //@   loop 1 ensures typeis(ttype, "*graphql.Interface") || typeis(ttype, "*graphql.Union") ==> calls("PossibleTypes") == atloop(1, calls("PossibleTypes")) + 1
 //@   at call PossibleTypes: assert arg0 == gq && arg1 == ttype
+// every abstract type gets its OWN member set, filled from its own possible types only
+//@   loop 2 over lastresult("PossibleTypes")
+//@   loop 2 invariant fresh(typeMap) && len(typeMap) <= rangeindex + 1 && rangeindex + 1 <= len(lastresult("PossibleTypes"))
+//@   loop 1 ensures calls("PossibleTypes") == atloop(1, calls("PossibleTypes")) + 1 ==> len(typeMap) <= len(lastresult("PossibleTypes"))
 
 // ---- planning: one entry per response key, in document order; shared visited set (C01, C13, C19) ----
 
